@@ -89,6 +89,7 @@ pub struct SimState<O, I> {
     pub calls_this_poll: usize,
     /// bookkeeping for `settle`: a connection-ending failure was reported; bodies of requests written
     pub term_seen: bool,
+    pub eof_read: bool,
     pub sent_bodies: Vec<u64>,
     pub body_of: Option<fn(&O) -> Option<u64>>,
     pub show_out: fn(&O) -> String,
@@ -121,6 +122,7 @@ impl<O, I> SimState<O, I> {
             write_waker: None,
             calls_this_poll: 0,
             term_seen: false,
+            eof_read: false,
             sent_bodies: vec![],
             body_of: None,
             show_out,
@@ -222,6 +224,7 @@ impl<O, I> Stream for SimTransport<O, I> {
             }
             None => {
                 if s.eof {
+                    s.eof_read = true;
                     log(format!("T {} next EOF", s.name));
                     Poll::Ready(None)
                 } else {
